@@ -3,7 +3,7 @@
    The code tries the whole name, then for i = 2 .. Count(name, ".")+1 the key "." + last(SplitN(name, ".", i)).
    [dot_suffixes] is the independent description of those keys: the suffixes of the name that begin at a
    dot, longest first. *)
-From Coq Require Import Sorted.
+From Coq Require Import String Sorted.
 From Gokrb5.lib Require Import Bytes GoString.
 From Gokrb5.model Require Import Krb5Conf.
 Open Scope Z_scope.
